@@ -23,6 +23,10 @@ META = {
 }
 
 TOL = Fraction(1, 10 ** 9)
+# The hand model describes dtproblog.evaluate AS IT IS at the pinned commit: a utility on `a` and one on `\\+a`
+# are both added twice.  When fixes/C21-utility-both-polarities.patch is applied, set this to False (and drop the
+# no_complement guard of C21_score_is_EU): the tie then runs the model on the plain expected utility.
+EVALUATE_DOUBLE_COUNTS = True
 PROBS = ["0.1", "0.2", "0.25", "0.3", "0.4", "0.5", "0.6", "0.7", "0.75", "0.8", "0.9"]
 REWARDS = ["1", "2", "3", "4", "5", "6", "8", "10", "-1", "-2", "-3", "-4", "-5", "-7", "-10", "0.5", "2.5", "-1.5", "0", "12"]
 
@@ -115,7 +119,13 @@ def gen_dt(rng):
     cand = list(atoms)
     rng.shuffle(cand)
     nu = rng.choice([1, 2, 2, 3, 3, 4, 5])
-    for a in cand[:nu]:
+    chosen = cand[:nu]
+    if rng.random() < 0.9:
+        # most programs: at least one decision carries a cost/reward and the last derived atom a reward
+        for a in (rng.choice(p["decs"]), "r%d" % (nr - 1)):
+            if a not in chosen:
+                chosen.append(a)
+    for a in chosen:
         p["utils"].append((rng.random() < 0.3, a, rng.choice(REWARDS)))
     if rng.random() < 0.12 and p["utils"]:
         neg, a, _ = rng.choice(p["utils"])
@@ -139,7 +149,7 @@ def gen_map(rng):
             p["rules"].append((h, body))
         atoms.append(h)
     facts = [n for n, _ in p["facts"]]
-    p["queries"] = rng.sample(facts, rng.choice([1, 2, 2, 3, min(4, nf)]))
+    p["queries"] = rng.sample(facts, min(nf, rng.choice([1, 2, 2, 3, 4])))
     derived = ["r%d" % i for i in range(nr)]
     for a in rng.sample(derived, rng.choice([0, 1, 1, 1, min(2, nr)])):
         p["evidence"].append((a, rng.random() < 0.6))
@@ -241,7 +251,9 @@ class Sem:
         tot = Fraction(0)
         for (neg, a) in u:
             pl_ = (1 - pr[a]) if neg else pr[a]
-            tot += pl_ * u[(neg, a)] + (1 - pl_) * u.get((not neg, a), 0)
+            tot += pl_ * u[(neg, a)]
+            if EVALUATE_DOUBLE_COUNTS:
+                tot += (1 - pl_) * u.get((not neg, a), 0)
         return tot
 
     def all_full(self):
@@ -323,9 +335,7 @@ def local_mirror_near_tie(table, own, n):
 
 
 def resolve_alias(p, D, name):
-    """The ground program keeps one node for atoms that are defined as a single
-    literal (r :- d.  /  r :- \\+d.): the decision may then be reported under the
-    name `r` or `\\+r`.  Returns (decision, parity) or None."""
+    """Syntactic alias (used for MAP evidence): r :- d. / r :- \\+d. chains.  Returns (atom of D, parity) or None."""
     neg = False
     seen = 0
     while seen < 50:
@@ -337,7 +347,7 @@ def resolve_alias(p, D, name):
         if name in D:
             return name, neg
         rules = [b for h, b in p["rules"] if h == name]
-        if len(rules) == 1 and len(rules[0]) == 1:
+        if len(rules) >= 1 and all(r == rules[0] for r in rules) and len(rules[0]) == 1:
             n2, a2 = rules[0][0]
             neg = neg != n2
             name = a2
@@ -346,9 +356,33 @@ def resolve_alias(p, D, name):
     return None
 
 
+def semantic_alias(sem, name, taken):
+    """The ground program keeps ONE node for all atoms that simplify to the same
+    literal (r :- d.  r1 :- r, d.  r2 :- \\+d.), and dtproblog reports the decision
+    under whichever name the node carries (`r1`, `\\+r2`).  Returns (decision, parity)
+    such that the literal `name` is true exactly when decision == 1 - parity in every
+    world under every strategy, or None."""
+    neg = name.startswith("\\+")
+    atom = name[2:] if neg else name
+    if not neg and atom in sem.D:
+        return atom, False
+    full = sem.all_full()
+    cands = {(d, par) for d in sem.D if d not in taken for par in (False, True)}
+    for s_ in full:
+        for w, fv, ch in sem.worlds:
+            v = sem.truth(fv, ch, s_)
+            if atom not in v:
+                return None
+            val = v[atom] != neg
+            cands = {(d, par) for d, par in cands if (bool(s_[sem.D.index(d)]) != par) == val}
+            if not cands:
+                return None
+    return sorted(cands)[0]
+
+
 def work_dt(item):
     """Worker: run both searches on one program, compute the exact tables."""
-    p = item
+    p, modes = item if isinstance(item, tuple) else (item, (None, "local"))
     src = render(p)
     sem = Sem(p)
     full = sem.all_full()
@@ -358,14 +392,17 @@ def work_dt(item):
     res = {"src": src, "p": p, "D": sem.D, "best_eu": best_eu, "runs": {}}
     both = sorted({a for neg, a, _ in p["utils"] if (not neg, a) in {(n2, a2) for n2, a2, _ in p["utils"]}})
     res["both_polarities"] = both
-    for search in (None, "local"):
+    for search in modes:
         r = run_dt(src, search)
         info = {"raw": r}
         if r[0] == "ok" and r[1] is not None:
             names = [k for k, _ in r[1]]
             vals = [v for _, v in r[1]]
             info["names"], info["vals"] = names, vals
-            al = [resolve_alias(p, sem.D, nm) for nm in names]
+            al = []
+            for nm in names:
+                x = semantic_alias(sem, nm, {y[0] for y in al if y is not None})
+                al.append(x)
             info["aliased"] = sum(1 for nm in names if nm not in sem.D)
             if any(x is None for x in al) or len({x[0] for x in al}) != len(al):
                 info["bad_names"] = True
@@ -509,7 +546,18 @@ def judge_dt(res, mode):
     if r[0] == "err":
         if mode == "local" and r[1].startswith("ProbLogError") and "constraints" in r[2]:
             return ("refused", "local search refuses constraints", None)
-        return ("violation", "%s search raised %s: %s" % (mode, r[1], r[2]), None)
+        klass = None
+        if r[1] == "INTERNAL:KeyError":
+            # the decision is in the ground program but not in the compiled formula
+            sem = Sem(p)
+            nm = r[2].strip("'\"")
+            al = semantic_alias(sem, nm, set())
+            if al is not None:
+                i = sem.D.index(al[0])
+                full = sem.all_full()
+                if all(sem.eu(s_) == sem.eu(tuple(1 - x if j == i else x for j, x in enumerate(s_))) for s_ in full):
+                    klass = "dt-irrelevant-decision-missing-from-compiled-formula-keyerror"
+        return ("violation", "%s search raised %s: %s on\n%s" % (mode, r[1], r[2], res["src"]), klass)
     if r[1] is None:
         return ("violation", "%s search returned no strategy" % mode, None)
     if info.get("bad_names"):
@@ -548,14 +596,15 @@ def judge_dt(res, mode):
 
 def dt_bad_pred(mode, klass):
     def bad(q):
-        res = work_dt(q)
+        res = work_dt((q, (None if mode == "exhaustive" else "local",)))
         v = judge_dt(res, mode)
         return v[0] == "violation" and v[2] == klass
     return bad
 
 
 def run_dt_programs(ctx, progs):
-    results = pl.pmap(work_dt, progs, jobs=8, chunksize=2)
+    results = pl.pmap(work_dt, progs, jobs=8, chunksize=1)
+    ctx.log("dt: %d programs run" % len(results))
     cases, metas = [], []
     seen_viol = {}
     for res in results:
@@ -572,9 +621,11 @@ def run_dt_programs(ctx, progs):
             ctx.count("dt_grounded_decisions", 0)
             ctx.count("dt_decisions=%d" % k)
             if verdict == "violation":
-                key = (mode, klass)
+                key = klass
                 seen_viol[key] = seen_viol.get(key, 0) + 1
-                if seen_viol[key] <= 2:
+                known = any(kf.get("property") == "C21" and kf.get("class") == klass and kf.get("status") == "known"
+                            for kf in ctx.known)
+                if (seen_viol[key] <= 1 or klass is None) and not known:
                     small = shrink_prog(p, dt_bad_pred(mode, klass))
                     sres = work_dt(small)
                     _, swhat, _ = judge_dt(sres, mode)
@@ -603,6 +654,7 @@ def run_dt_programs(ctx, progs):
                 if abs(Fraction(r[2]) - info["table"][idx]) > TOL:
                     ctx.broken.append("correspondence:reported score %r is not the modelled evaluate() value %s on\n%s"
                                       % (r[2], info["table"][idx], res["src"]))
+    ctx.log("dt: judged, %d model cases" % len(cases))
     try:
         bad = ctx.coq_failing(HEADER, cases, name="dt")
     except RuntimeError as e:
@@ -754,6 +806,10 @@ WITNESS_DT = [
     # decision AD with an irrelevant head
     {"facts": [], "pads": [], "decs": [], "dads": [{"heads": ["c0", "c1", "c2"], "body": []}], "rules": [],
      "utils": [(False, "c0", "-1"), (False, "c1", "-2")]},
+    # a grounded decision that the compiled formula does not mention
+    {"facts": [], "pads": [], "decs": ["d0"], "dads": [],
+     "rules": [("r0", [(False, "d0")]), ("r2", [(False, "r0")]), ("r4", [(False, "r0"), (True, "r2")])],
+     "utils": [(False, "r4", "2")]},
     # no decision is relevant
     {"facts": [("f0", "0.3")], "pads": [], "decs": ["d0"], "dads": [], "rules": [("r0", [(False, "f0")])],
      "utils": [(False, "r0", "2")]},
@@ -766,6 +822,10 @@ WITNESS_MAP = [
     {"facts": [("f0", "0.7"), ("f1", "0.7")], "pads": [], "decs": [], "dads": [],
      "rules": [("r0", [(False, "f0"), (False, "f1")])], "utils": [],
      "queries": ["f0", "f1"], "evidence": [("r0", False)]},
+    # positive evidence on (an alias of) a queried fact: TrueConstraint has no check()
+    {"facts": [("f0", "0.7"), ("f1", "0.4")], "pads": [], "decs": [], "dads": [],
+     "rules": [("r0", [(False, "f0")])], "utils": [],
+     "queries": ["f0", "f1"], "evidence": [("r0", True)]},
 ]
 
 
@@ -800,8 +860,8 @@ def run(ctx):
             run_map_programs(ctx, [rp["program"]])
         return
 
-    progs = list(WITNESS_DT) + [gen_dt(ctx.rng) for _ in range(ctx.n(90, 2000))]
+    progs = list(WITNESS_DT) + [gen_dt(ctx.rng) for _ in range(ctx.n(50, 700))]
     run_dt_programs(ctx, progs)
     ctx.log("dt done")
-    mprogs = list(WITNESS_MAP) + [gen_map(ctx.rng) for _ in range(ctx.n(40, 600))]
+    mprogs = list(WITNESS_MAP) + [gen_map(ctx.rng) for _ in range(ctx.n(24, 250))]
     run_map_programs(ctx, mprogs)
